@@ -23,7 +23,10 @@ RULE = ("forward: the (type tree, value, protocol version, input style) cases of
         "duration/decimal-scale limits, float32 overflow, non-ASCII ascii, wrong vector dimension, over-long tuple/UDT, 16-bit "
         "collection widths of protocol v1/v2) x 7 embeddings (bare, list, set, map key, map value, tuple, UDT, vector) x protocol "
         "{2,4} x input style {objects, raw ints}, plus Hypothesis-drawn magnitudes beyond each bound; the driver must raise, and "
-        "bytes that the reference reads back as a different value are the violation.  Non-trivial: forward/backward cases whose "
+        "bytes that the reference reads back as a different value are the violation.  varint-boundaries: every +-2^k and "
+        "+-2^k+-1, k = 0..130, and 0, as a varint and as the unscaled value of a decimal (exponents 0, -2, 3, -20), bare / in a list / "
+        "as a map key, forward and backward, enumerated completely.  The forward part also feeds timezone-aware datetimes (fixed "
+        "offsets) whose bytes must be those of the UTC instant.  Non-trivial: forward/backward cases whose "
         "encoding is >= 2 bytes and whose value is in a boundary class or whose tree has depth >= 2; every range probe.")
 ASSUMPTIONS = [
     "Cassandra's serializers are represented by spec/values.py (pinned by the fixed vectors of tests/unit/test_marshalling.py and test_types.py)",
@@ -38,7 +41,7 @@ SERIAL = os.environ.get("VERIF_TIER") == "quick"
 
 _BOUNDARY = {"int-boundary", "varint>=64bit", "non-bmp", "null-inside", "empty-collection", "v2-toplevel-collection",
              "ts-outside-1970-2038", "short-tuple", "float-special", "date-beyond-pydate", "decimal-big-exp", "duration-boundary",
-             "long>=128B", "ts-far", "decimal-neg-zero", "nul-char"}
+             "long>=128B", "ts-far", "decimal-neg-zero", "nul-char", "aware-datetime"}
 
 
 def s_forward_quick():
@@ -95,6 +98,9 @@ def interpret_forward(case, ctx):
     shp = _drv.shape(tree)
     feats = _drv.label_case(ctx, tree, value, pv)
     ctx.label("style:%d" % style, "via:" + via)
+    if style == 3 and V.contains_value(tree, value, "timestamp"):
+        feats = feats | {"aware-datetime"}
+        ctx.label("f:aware-datetime")
     if _out_of_domain(ctx, tree, pv):
         return
     try:
@@ -335,6 +341,75 @@ def interpret_probe(case, ctx):
                      V.cql_name(tree), value, pv, label, data.hex()[:80], seen))
 
 
+# ----------------------------------------------------------------------------------------------------------------
+# varint boundaries, enumerated: every +-2^k and +-2^k+-1 (k = 0..130) as a varint and as a decimal's unscaled value
+# ----------------------------------------------------------------------------------------------------------------
+
+_VB_EXPONENTS = (0, -2, 3, -20)
+_VB_CHUNKS = [[0, 33], [33, 66], [66, 99], [99, 131]]
+_VB_TYPES = {}
+
+
+def _vb_numbers(lo, hi):
+    out = set()
+    if lo == 0:
+        out.add(0)
+    for k in range(lo, hi):
+        for x in (2 ** k - 1, 2 ** k, 2 ** k + 1):
+            out.add(x)
+            out.add(-x)
+    return sorted(out)
+
+
+def varint_boundary_cases(chunk):
+    for n in _vb_numbers(chunk[0], chunk[1]):
+        for kind, exp in [("varint", 0)] + [("decimal", e) for e in _VB_EXPONENTS]:
+            for embed in ("bare", "list", "map-key"):
+                yield {"n": n, "kind": kind, "exp": exp, "embed": embed, "pv": 2 if (n + exp) % 2 else 4}
+
+
+def interpret_varint_boundary(case, ctx):
+    n, kind, exp, embed, pv = case["n"], case["kind"], case["exp"], case["embed"], case["pv"]
+    leaf = V.T(kind)
+    x = n if kind == "varint" else [1 if n < 0 else 0, str(abs(n)), exp]
+    if embed == "bare":
+        tree, value = leaf, x
+    elif embed == "list":
+        tree, value = V.t_list(leaf), [x, x]
+    else:
+        tree, value = V.t_map(leaf, V.T("int")), [[x, 1]]
+    ctx.label("varint-boundary", "vb:" + kind, "vb:" + embed)
+    ctx.nontrivial(True)
+    typ = _VB_TYPES.get((kind, embed))
+    if typ is None:
+        with ctx.driver(["C02.build", "direct", tree["t"]]):
+            typ = _VB_TYPES[(kind, embed)] = _drv.build_type(tree)
+        if ctx._failures:
+            return
+    expected = V.encode(tree, value, pv)
+    shp = _drv.shape(tree)
+    with ctx.driver(["C02.forward.encode", shp]):
+        data = typ.to_binary(_drv.to_driver(tree, value, 0), pv)
+    if not ctx._failures and data != expected:
+        try:
+            seen = V.decode(tree, data, pv)
+        except V.SpecError as e:
+            ctx.fail(["C02.forward", "undecodable", shp], "%s %r: driver wrote %s (%s)" % (V.cql_name(tree), value, data.hex()[:80], e))
+        else:
+            if not _report_diffs(ctx, "C02.forward", tree, pv, value, seen, "driver bytes read by the reference"):
+                ctx.fail(["C02.forward", "non-canonical", shp], "%s %r pv=%d: driver wrote %s, Cassandra writes %s" % (
+                    V.cql_name(tree), value, pv, data.hex()[:80], expected.hex()[:80]))
+    before = len(ctx._failures)
+    got = None
+    try:
+        with ctx.driver(["C02.backward.decode", shp], expect=(V.NormaliseError,)):
+            got = _drv.from_driver(tree, typ.from_binary(expected, pv))
+    except V.NormaliseError as e:
+        ctx.fail(["C02.backward.type", shp], "decoded value has the wrong python type: %s" % e)
+    if len(ctx._failures) == before:
+        _report_diffs(ctx, "C02.backward", tree, pv, value, got, "image %s" % expected.hex()[:80])
+
+
 def parts(tier):
     q = tier == "quick"
     return [
@@ -346,5 +421,6 @@ def parts(tier):
         hyp_part("backward", s_backward_quick if q else s_backward_thorough, interpret_backward, tier,
                  quick=400, thorough=4000, quick_shards=3, thorough_shards=16),
         EnumPart("probes", _PROBE_CHUNKS, probe_cases, interpret_probe),
+        EnumPart("varint-boundaries", _VB_CHUNKS, varint_boundary_cases, interpret_varint_boundary),
         hyp_part("range", s_random_range, interpret_probe, tier, quick=300, thorough=3000, quick_shards=1, thorough_shards=4),
     ]
